@@ -289,6 +289,18 @@ def bounded_checks(tier, seed):
     if r.returncode != 0:
         raise RuntimeError("bounded C06 sweep crashed: " + r.stderr[-1500:])
     d = json.loads(r.stdout.strip().splitlines()[-1])
-    return [{"check": "import_graphs", "tool": "exhaustive + seeded random generation of import graphs, real loader, statement evaluated natively",
+    t1 = time.time()
+    n_pk = 150 if tier == "quick" else 3000
+    r2 = subprocess.run([VENV_PY, "-m", "replay.C06", "packages", str(n_pk), str(seed), "60" if tier == "quick" else "900"], capture_output=True, text=True, cwd=str(VERIF),
+                        env=dict(os.environ, PYTHONPATH=str(REPO_SRC)), timeout=600 if tier == "quick" else 3000)
+    if r2.returncode != 0:
+        raise RuntimeError("bounded C06 package sweep crashed: " + r2.stderr[-1500:])
+    d2 = json.loads(r2.stdout.strip().splitlines()[-1])
+    pk = {"check": "package_sets", "tool": "directed + seeded random sets of top-level packages in one collection, real loader; loaded in several orders, the rest left to "
+          "external alias resolution; resolve_aliases run twice, statement evaluated natively",
+          "bound": f"4 single-module packages, 5 directed cross-package chains/cycles x 5 load orders + {n_pk} random sets (1-3 statements per package over a 25-statement "
+                   "alphabet without wildcards) x 1 load order; external in (True, False, None) x implicit in (True, False)",
+          "cases": d2["cases"], "failing": len(d2["bad"]), "wall_s": round(time.time() - t1, 1), "violations": d2["bad"]}
+    return [pk, {"check": "import_graphs", "tool": "exhaustive + seeded random generation of import graphs, real loader, statement evaluated natively",
              "bound": f"3 modules; all 1-statement-per-module graphs over an 24-statement alphabet + {n_random} random graphs with 1-3 statements per module",
-             "cases": d["graphs"], "failing": len(d["bad"]), "wall_s": round(time.time() - t0, 1), "class_match": True, "violations": d["bad"]}]
+             "cases": d["graphs"], "failing": len(d["bad"]), "wall_s": round(t1 - t0, 1), "class_match": True, "violations": d["bad"]}]
